@@ -715,8 +715,8 @@ class Unit:
         """self == other"""
         if isinstance(other, Unit):
             if self.qty_cls is other.qty_cls:
-                if self._equiv is None:
-                    assert other._equiv is None
+                if self._equiv is None or self.qty_cls.ref_unit is None:
+                    # without a reference unit there is no common scale
                     return self is other
                 else:
                     assert other._equiv is not None
